@@ -92,6 +92,13 @@ std::string replay_case(Ctx& c, const std::string& text, const Body& body) {
       tp.continue_pseudo_randomly();
       return run_one(c, body, ti, v, tp, src);
     }
+    if (src.rfind("sweep:", 0) == 0) {
+      size_t vi = 0, fi = 0; int b = 0;
+      if (sscanf(src.c_str(), "sweep:%zu:%zu:%d", &vi, &fi, &b) != 3) return "REPLAY: bad sweep case";
+      bool in = false;
+      return sweep_one(c, t, vi, fi, b, &in);
+    }
+    if (src.rfind("int:", 0) == 0) return int_sweep_one(c, t, strtoull(src.c_str() + 4, nullptr, 10));
     if (src.rfind("fuzz:", 0) == 0) {
       Bytes b = unhex(src.substr(5));
       bool acc = false, nc = false;
